@@ -57,6 +57,9 @@ type Case struct {
 	Goroutines int        `json:"goroutines"`
 	Ops        [][]Op     `json:"ops"` // per goroutine
 	Globals    bool       `json:"globals"`
+	// Plugin: the instance is the data scope of a signal HANDLER of a whole plugin schema rebuilt by UnserializeSchema
+	// (as the engine gets it from the hello message), in a step that also EMITS a signal under the same ID
+	Plugin bool `json:"plugin,omitempty"`
 }
 
 type result struct {
@@ -68,6 +71,28 @@ func buildInstance(c Case) (schema.Type, error) {
 	b, err := spec.Build(c.Spec)
 	if err != nil {
 		return nil, err
+	}
+	if c.Plugin {
+		sc, ok := b.(*schema.ScopeSchema)
+		if !ok {
+			return b, nil
+		}
+		mk := func() *schema.ScopeSchema {
+			x, _ := spec.Build(c.Spec)
+			return x.(*schema.ScopeSchema)
+		}
+		step := schema.NewStepSchema("s", sc, map[string]*schema.StepOutputSchema{"success": schema.NewStepOutputSchema(mk(), nil, false)},
+			map[string]*schema.SignalSchema{"sig": schema.NewSignalSchema("sig", mk(), nil)},
+			map[string]*schema.SignalSchema{"sig": schema.NewSignalSchema("sig", mk(), nil)}, nil)
+		d, err := schema.NewSchema(map[string]*schema.StepSchema{"s": step}).SelfSerialize()
+		if err != nil {
+			return nil, err
+		}
+		r, err := schema.UnserializeSchema(d)
+		if err != nil {
+			return nil, err
+		}
+		return r.StepsValue["s"].SignalHandlersValue["sig"].DataSchemaValue, nil
 	}
 	if !c.Rebuilt {
 		return b, nil
@@ -358,6 +383,7 @@ func genCase(rt *rapid.T, globals bool) Case {
 	s := gen.Spec(o).Draw(rt, "spec")
 	gen.AddDefaults(rt, s, o)
 	c := Case{Spec: s, Rebuilt: rapid.Bool().Draw(rt, "rebuilt"), Goroutines: rapid.SampledFrom([]int{2, 2, 3, 4, 8, 16}).Draw(rt, "goroutines"), Globals: globals}
+	c.Plugin = !globals && rapid.IntRange(0, 3).Draw(rt, "plugin") == 0
 	var pool []val.V
 	for i := 0; i < 4; i++ {
 		if mv, ok := gen.ValueFor(rt, s, nil, 3); ok {
